@@ -3,6 +3,7 @@
 
 from __future__ import annotations
 
+import ast
 from _collections_abc import dict_items, dict_keys, dict_values
 from datetime import datetime
 from enum import Enum
@@ -206,7 +207,14 @@ def _deserialize_exception(data: Any) -> Exception:
     exc_message = data["exception_message"]
     try:
         exc_cls = import_module_from_qualified_name(data["exception_type"])
-        return exc_cls(exc_message)
+        exc = exc_cls(exc_message)
+        if str(exc) != exc_message and issubclass(exc_cls, KeyError):
+            # str(KeyError(key)) is repr(key): rebuild from the key so the message survives
+            try:
+                exc = exc_cls(ast.literal_eval(exc_message))
+            except (ValueError, SyntaxError):
+                pass
+        return exc
     except (ImportError, AttributeError, ValueError):
         return Exception(exc_message)
 
